@@ -979,7 +979,7 @@ func (w *World) fieldStoresByName(relPkg, typ, field string) []*ssa.Store {
 		return nil
 	}
 	for _, fn := range w.SSAFuncs {
-		allInstrs(fn, true, func(_ *ssa.Function, _ *ssa.BasicBlock, _ int, ins ssa.Instruction) {
+		allInstrsLocal(fn, true, func(_ *ssa.Function, _ *ssa.BasicBlock, _ int, ins ssa.Instruction) {
 			st, ok := ins.(*ssa.Store)
 			if !ok {
 				return
